@@ -554,6 +554,12 @@ def gen_master_items(rng, depth, budget, floats=False, dup=True):
         if force_kind is not None:
             want_scope = force_kind == "s" and depth < 2
         if want_scope:
+            if rng.random() < 0.12:
+                # attributes only scopes have: they travel with every copy fetch makes of the scope
+                attrs = dict(attrs)
+                for a, v in (("sequential_format", '"%s_%%d"' % name), ("disable_add", "True"), ("disable_delete", "False")):
+                    if rng.random() < 0.6:
+                        attrs[a] = v
             item = ["s", name, dis, attrs, gen_master_items(rng, depth + 1, budget, floats, dup)]
         else:
             tkey = rng.choice(FLOAT_TYPES if floats else PLAIN_TYPES)
@@ -608,7 +614,7 @@ def mutate_values(rng, items):
     return out
 
 
-ATTR_ORDER = ["help", "optional", "type", "multiple", "expert_level", "deprecated"]
+ATTR_ORDER = ["help", "optional", "type", "multiple", "expert_level", "deprecated", "sequential_format", "disable_add", "disable_delete"]
 
 
 def render_master(items, ind=""):
